@@ -4,7 +4,7 @@ import ast
 from ..mutate import Mutant, in_func, delete_stmt
 from ..report import AnalysisError
 from ..srcmodel import unparse, norm, walk_no_nested, calls_in
-from .common import is_method_call, get_kw, recv_of, cfg_of
+from .common import is_method_call, get_kw, recv_of, cfg_of, only_reached_from
 from . import evalrules as er
 from . import tr
 
@@ -86,9 +86,40 @@ def classify(loop):
     names = {n.id for n in ast.walk(test) if isinstance(n, ast.Name)}
     if isinstance(test, ast.Constant) and test.value is True:
         for st in body:
-            if isinstance(st, ast.If) and any(isinstance(b, ast.Break) for b in st.body):
+            if isinstance(st, ast.If) and any(isinstance(b, (ast.Break, ast.Return)) for b in st.body):
                 names |= {n.id for n in ast.walk(st.test) if isinstance(n, ast.Name)}
     reassigned = [s for s in ast.walk(loop) if isinstance(s, ast.Assign) and any(isinstance(t, ast.Name) and t.id in names for t in s.targets)]
+    # only a reassignment *computed from the loop variable by a call / attribute / subscript* (possibly through other locals of the
+    # loop) is reference chasing (x = lookup(x), x = x.next, r = table[x]; x = r); arithmetic on a counter is not
+    def _mentions(e, nms):
+        return any(isinstance(x, ast.Name) and x.id in nms for x in ast.walk(e))
+
+    def _lookup_of(rhs, nms):
+        for n in ast.walk(rhs):
+            if isinstance(n, ast.Call) and (_mentions(n.func, nms) or any(_mentions(a, nms) for a in list(n.args) + [k.value for k in n.keywords])):
+                return True
+            if isinstance(n, ast.Attribute) and _mentions(n.value, nms):
+                return True
+            if isinstance(n, ast.Subscript) and _mentions(n.slice, nms):
+                return True
+        return False
+    chased = []
+    for v in sorted(names):
+        derived = {v}
+        lookups = set()
+        changed = True
+        while changed:
+            changed = False
+            for s_ in ast.walk(loop):
+                if isinstance(s_, ast.Assign):
+                    for t in s_.targets:
+                        if isinstance(t, ast.Name) and t.id not in lookups and (_lookup_of(s_.value, derived) or (isinstance(s_.value, ast.Name) and s_.value.id in lookups)):
+                            lookups.add(t.id)
+                            derived.add(t.id)
+                            changed = True
+        if v in lookups:
+            chased.append(v)
+    reassigned = [s for s in reassigned if any(isinstance(t, ast.Name) and t.id in chased for t in s.targets)]
     if reassigned:
         return 'reference-chasing', 'loop variable %s is reassigned from %s' % (sorted(names & {t.id for s in reassigned for t in s.targets if isinstance(t, ast.Name)}), norm(reassigned[0].value)[:60])
     return None, None
@@ -124,7 +155,7 @@ def r1(repo, run):
                 run.ok('C09.R1', where, desc, '%s: %s' % (kind, why))
             elif fi.qualname in LOOP_TABLE and kind == 'reference-chasing' and not (fi.cls is not None and repo.is_subclass(fi.cls.name, 'ConfigNode')):
                 run.ok('C09.R1', where, desc, 'table: ' + LOOP_TABLE[fi.qualname])
-            elif kind == 'reference-chasing' and fi.cls is not None and fi.cls.name == 'XRefNode':
+            elif kind == 'reference-chasing' and ((fi.cls is not None and fi.cls.name == 'XRefNode') or only_reached_from(repo, fi.qualname, {'XRefNode.ayns.on_evaluate_impl'})):
                 n_chase += 1
                 if n_chase == 1:
                     xref_guard(repo, run)
@@ -218,32 +249,65 @@ def r2r3(repo, run):
             (run.ok if v[0] == 'ok' else run.violation)(r_, fi, 'XRefNode evaluation', v[1])
 
 
+VALID_PATHS = {'a': ['a'], 'a.b': ['a', 'b'], 'a[0]': ['a', 0], 'a.b[12].c_d': ['a', 'b', 12, 'c_d'], '[3]': [3], '': []}
+INVALID_PATHS = [' a', 'a b', 'a.b-c', 'a[x]', 'a[1', 'a]', 'a.b c', '-a', 'a.b[1]x y']
+
+
+def _regex_attr(repo, cls, attr):
+    import re
+    owner, e = repo.class_attr(cls, attr)
+    if e is None or not (isinstance(e, ast.Call) and norm(e.func) == 're.compile' and e.args and isinstance(e.args[0], ast.Constant) and isinstance(e.args[0].value, str)):
+        raise AnalysisError('%s.%s is not re.compile(<literal>)' % (cls, attr))
+    flags = 0
+    for a_ in list(e.args[1:]) + [k.value for k in e.keywords]:
+        for part in (a_.values if isinstance(a_, ast.BoolOp) else [a_]) if not isinstance(a_, ast.BinOp) else [x for x in ast.walk(a_) if isinstance(x, ast.Attribute)]:
+            nm = norm(part)
+            if not (nm.startswith('re.') and nm[3:].isupper() and hasattr(re, nm[3:])):
+                raise AnalysisError('%s.%s: regex flag %s not modelled' % (cls, attr, nm))
+            flags |= getattr(re, nm[3:])
+    return re.compile(e.args[0].value, flags)
+
+
 def r4(repo, run):
+    """NodePath.split_path evaluated on concrete strings (finite-domain evaluator; the class-level pattern is compiled by the stdlib):
+    well-formed paths give their components, text before / between / after the components raises ValueError"""
+    from ..fde import FDE
+    from .common import fde_guard
     fi = repo.func('NodePath.split_path')
-    raises = []
-    for s in ast.walk(fi.node):
-        if isinstance(s, ast.If) and any(isinstance(b, ast.Raise) and b.exc is not None and 'ValueError' in norm(b.exc) for b in s.body):
-            raises.append(s)
-    gap = [s for s in raises if 'match.start()' in norm(s.test) or '.start()' in norm(s.test)]
-    suffix = [s for s in raises if 'len(path_str)' in norm(s.test)]
-    if not gap:
-        run.violation('C09.R4', fi, 'prefix/gap validation', 'split_path does not reject text between / before the matched components')
+    rx_names = [a for a, e in repo.classes['NodePath'].attrs.items() if isinstance(e, ast.Call) and norm(e.func) == 're.compile']
+    if not rx_names:
+        raise AnalysisError('NodePath: compiled path pattern not found')
+    bad = []
+    rows = 0
+
+    def run_one(text, validate):
+        f = FDE(repo)
+        f.generators = True
+        for a in rx_names:
+            f.class_objs[('NodePath', a)] = _regex_attr(repo, 'NodePath', a)
+        args = [('class', 'NodePath'), text] if fi.is_classmethod else [text]
+        return fde_guard(lambda: f.call(fi, *args) if validate is None else f.call(fi, *args, validate=validate))
+    for text, want in VALID_PATHS.items():
+        r = run_one(text, None)
+        rows += 1
+        if r.raised or list(r.ret or []) != want:
+            bad.append('the well-formed path %r gives %s (expected %r)' % (text, ('raises ' + str(r.raised)) if r.raised else list(r.ret or []), want))
+    gap = suffix = 0
+    for text in INVALID_PATHS:
+        r = run_one(text, None)
+        rows += 1
+        if r.raised != 'ValueError':
+            bad.append('the malformed path %r is accepted as %s: text %s the components is ignored, so a mistyped reference silently denotes another node' % (text, list(r.ret or []) if not r.raised else 'error ' + str(r.raised), 'after' if text in ('a.b-c', 'a[1', 'a]', 'a.b[1]x y') else 'before / between'))
+    run.table('C09.R4', rows, 'split_path over %d well-formed and %d malformed path strings' % (len(VALID_PATHS), len(INVALID_PATHS)))
+    if bad:
+        run.violation('C09.R4', fi, 'path text validation', '; '.join(bad[:3]))
     else:
-        run.ok('C09.R4', (fi.file, gap[0].lineno, fi.qualname), 'if %s: raise ValueError' % norm(gap[0].test)[:80], 'prefix and gaps rejected')
-    if not suffix:
-        run.violation('C09.R4', fi, 'suffix validation', 'split_path does not reject an unparsable tail (no `end != len(path_str)` check raising ValueError): `a.b-c` silently resolves to `a.b`, so a dangling reference is not reported')
-    else:
-        # the suffix check must not sit inside the match loop only
-        inside_loop = any(any(x is suffix[0] for x in ast.walk(lp)) for lp in ast.walk(fi.node) if isinstance(lp, ast.For))
-        if inside_loop:
-            run.violation('C09.R4', fi, norm(suffix[0].test), 'suffix check is inside the match loop (not evaluated after the last match)', node=suffix[0])
-        else:
-            run.ok('C09.R4', (fi.file, suffix[0].lineno, fi.qualname), 'if %s: raise ValueError' % norm(suffix[0].test)[:80], 'unparsed suffix rejected')
+        run.ok('C09.R4', fi, 'split_path table (%d rows)' % rows, 'components of well-formed paths; prefix, gaps and unparsed suffix rejected with ValueError')
     a = fi.node.args
     names = [x.arg for x in a.args]
     dflt = a.defaults[names.index('validate') - (len(names) - len(a.defaults))] if 'validate' in names else None
     glp = repo.func('NodePath.get_list_path')
-    calls = [c for c in calls_in(glp.node) if is_method_call(c, member='split_path')]
+    calls = [c for f_ in ([glp] + [g for g in glp.module.functions.values() if only_reached_from(repo, g.qualname, {glp.qualname})]) for c in calls_in(f_.node) if is_method_call(c, member='split_path')]
     lenient = [c for c in calls if get_kw(c, 'validate') is not None and not (isinstance(get_kw(c, 'validate'), ast.Constant) and get_kw(c, 'validate').value is True)]
     if not (isinstance(dflt, ast.Constant) and dflt.value is True) or lenient or not calls:
         run.violation('C09.R4', glp, 'split_path(validate=...)', 'textual paths are parsed without validation')
